@@ -1,4 +1,6 @@
 import PsV.Proofs.Permute
+import PsV.Proofs.PermuteEval
+import PsV.Props.C01
 /-!
 # C15 — permuting dimensions relabels axes without changing the function
 
@@ -175,6 +177,53 @@ theorem C15_eval_permuted {R X : Type} [CommSemiring R] (val : C → R) (basis :
   simp only [(C15_reject_unchanged junk T perm).2 hp]
   exact tensorEval_permuteBody val basis dc dx junk hT hp x hx
 
+/-! ## the same statement about the evaluation tables of C01 -/
+section eval
+variable {F E' : Type} [Field F] [LinearOrder F] [Inhabited E']
+attribute [local instance] Arith.ofField
+
+/-- **The C01 meaning of an evaluation is invariant under `permuteDimensions`**: for a table whose
+knot entries are knot arrays, `specEval` (sum over all coefficients of coefficient × product of
+Cox–de Boor values or derivatives, C01's continuity convention) of the permuted table at the
+correspondingly permuted point and derivative selection equals that of the original, exactly. -/
+theorem C15_specEval_permuted (junk : F) (T : PTable (Int → F) E' F) (hT : T.WF) (perm : List Nat)
+    (hp : perm.Perm (List.range T.ndim)) (xs : List F) (ms : List BasisMode)
+    (hx : xs.length = T.ndim) (hm : ms.length = T.ndim) :
+    specEval (toTable (permuteDimensions junk T perm).1) (gather 0 xs perm) (gather .value ms perm)
+      = specEval (toTable T) xs ms := by
+  simp only [(C15_reject_unchanged junk T perm).2 hp]
+  exact specEval_permuteBody junk T hT hp xs ms hx hm
+
+/-- **Evaluator level**: whenever the model evaluator (`ndsplineeval`, the definition tied bit-exactly to the
+C++ in C01) accepts the point on the original table and the permuted point on the permuted table —
+hypotheses of `C01_eval_eq_spec_partial` for both — the two values are equal, exactly. -/
+theorem C15_ndsplineeval_permuted (junk : F) (T : PTable (Int → F) E' F) (hT : T.WF) (perm : List Nat)
+    (hp : perm.Perm (List.range T.ndim)) (xs : List F) (cs cs' : List Nat) (hx : xs.length = T.ndim)
+    (hwf : (toTable T).WF) (hnd : AllNonDegenerate (toTable T).dims xs)
+    (hs : @searchCenters F (cmpLO F) ((toTable T).dims.map Dim.axis) xs = .ok cs)
+    (hwf' : (toTable (permuteDimensions junk T perm).1).WF)
+    (hnd' : AllNonDegenerate (toTable (permuteDimensions junk T perm).1).dims (gather 0 xs perm))
+    (hs' : @searchCenters F (cmpLO F) ((toTable (permuteDimensions junk T perm).1).dims.map Dim.axis)
+      (gather 0 xs perm) = .ok cs') :
+    ndsplineeval (toTable (permuteDimensions junk T perm).1) (gather 0 xs perm) cs' 0
+      = ndsplineeval (toTable T) xs cs 0 := by
+  have hp' : IsPerm T.ndim perm := hp
+  have hnd1 : (permuteDimensions junk T perm).1.ndim = T.ndim := by
+    simp only [(C15_reject_unchanged junk T perm).2 hp]; exact permuteBody_ndim junk hT hp'
+  have hl : (toTable T).dims.length = T.ndim := by simp [toTable]
+  have hl' : (toTable (permuteDimensions junk T perm).1).dims.length = T.ndim := by simp [toTable, hnd1]
+  rw [C01_eval_eq_spec_partial _ _ _ hwf (by rw [hl, hx]) hnd hs,
+    C01_eval_eq_spec_partial _ _ _ hwf' (by rw [hl', gather_length, hp'.length]) hnd' hs', hl, hl',
+    ← C15_specEval_permuted junk T hT perm hp xs (List.replicate T.ndim .value) hx (by simp)]
+  congr 1
+  unfold gather
+  apply List.ext_getElem
+  · simp [hp'.length]
+  · intro i h1 h2
+    have hj : perm[i]'(by simpa using h2) < T.ndim := hp'.lt (List.getElem_mem _)
+    simp [List.getD_eq_getElem?_getD, List.getElem?_replicate, hj]
+end eval
+
 /-! ## non-vacuity and the defect the repair removes -/
 
 /-- a 3-d table with pairwise different attributes and periods -/
@@ -210,4 +259,63 @@ theorem C15_unrepaired_periods_not_permuted :
      extents := [(0, 1), (2, 3)], periods := some [7, 8], coef := List.range 6 }, [1, 0],
    ⟨by decide, rfl, rfl, rfl, rfl, rfl, by intro p h; cases h; rfl, rfl, rfl⟩, by decide, 0, by decide, by decide⟩
 
+end PsV.Permute
+
+/-! ## non-vacuity of `C15_ndsplineeval_permuted`: a 2-d table (orders 1, 2), the swap, an accepted point -/
+namespace PsV.Permute
+open PsV
+attribute [local instance] Arith.ofField
+
+def kn : Int → Rat := fun i => (i : Rat)
+def nvT : PTable (Int → Rat) Nat Rat :=
+  { ndim := 2, order := [1, 2], naxes := [4, 4], strides := [4, 1], nknots := [6, 7],
+    knots := [kn, kn], extents := [(0, 1), (2, 3)], periods := none,
+    coef := [0,1,2,3,4,5,6,7,8,9,10,11,12,13,14,15] }
+def nvT' : PTable (Int → Rat) Nat Rat :=
+  { ndim := 2, order := [2, 1], naxes := [4, 4], strides := [4, 1], nknots := [7, 6],
+    knots := [kn, kn], extents := [(2, 3), (0, 1)], periods := none,
+    coef := [0,4,8,12,1,5,9,13,2,6,10,14,3,7,11,15] }
+
+theorem nv_perm : (permuteDimensions 0 nvT [1, 0]).1 = nvT' := by rfl
+end PsV.Permute
+namespace PsV.Permute
+open PsV
+attribute [local instance] Arith.ofField
+
+theorem kn_mono (n : Nat) : ∀ i j : Int, 0 ≤ i → i ≤ j → j < n → kn i ≤ kn j :=
+  fun i j _ hij _ => by show ((i:Int):Rat) ≤ ((j:Int):Rat); exact_mod_cast hij
+
+example : nvT.WF ∧ ([1, 0] : List Nat).Perm (List.range nvT.ndim) ∧
+    (toTable nvT).WF ∧ AllNonDegenerate (toTable nvT).dims [(5/2 : Rat), 7/2] ∧
+    @searchCenters Rat (cmpLO Rat) ((toTable nvT).dims.map Dim.axis) [(5/2 : Rat), 7/2] = .ok [2, 3] ∧
+    (toTable (permuteDimensions 0 nvT [1, 0]).1).WF ∧
+    AllNonDegenerate (toTable (permuteDimensions 0 nvT [1, 0]).1).dims (gather 0 [(5/2 : Rat), 7/2] [1, 0]) ∧
+    @searchCenters Rat (cmpLO Rat) ((toTable (permuteDimensions 0 nvT [1, 0]).1).dims.map Dim.axis)
+      (gather 0 [(5/2 : Rat), 7/2] [1, 0]) = .ok [3, 2] := by
+  rw [nv_perm]
+  have d1 : (toTable nvT).dims = [⟨1, 6, 4, 4, kn⟩, ⟨2, 7, 4, 1, kn⟩] := rfl
+  have d2 : (toTable nvT').dims = [⟨2, 7, 4, 4, kn⟩, ⟨1, 6, 4, 1, kn⟩] := rfl
+  have g : gather 0 [(5/2 : Rat), 7/2] [1, 0] = [7/2, 5/2] := rfl
+  rw [d1, d2, g]
+  refine ⟨⟨by decide, rfl, rfl, rfl, rfl, rfl, (by intro p h; cases h), rfl, rfl⟩, by decide, ⟨?_, ?_⟩, ?_, ?_, ⟨?_, ?_⟩, ?_, ?_⟩
+  · intro d hd
+    rw [d1] at hd
+    simp only [List.mem_cons, List.not_mem_nil, or_false] at hd
+    rcases hd with rfl | rfl
+    · exact ⟨by decide, rfl, kn_mono _⟩
+    · exact ⟨by decide, rfl, kn_mono _⟩
+  · rw [d1]; rfl
+  · exact ⟨Or.inl (by simp [kn]; norm_num), Or.inl (by simp [kn]; norm_num), trivial⟩
+  · simp [searchCenters, searchAxis, Dim.axis, bsearch, Cmp.lt, Cmp.le, kn]
+    norm_num
+  · intro d hd
+    rw [d2] at hd
+    simp only [List.mem_cons, List.not_mem_nil, or_false] at hd
+    rcases hd with rfl | rfl
+    · exact ⟨by decide, rfl, kn_mono _⟩
+    · exact ⟨by decide, rfl, kn_mono _⟩
+  · rw [d2]; rfl
+  · exact ⟨Or.inl (by simp [kn]; norm_num), Or.inl (by simp [kn]; norm_num), trivial⟩
+  · simp [searchCenters, searchAxis, Dim.axis, bsearch, Cmp.lt, Cmp.le, kn]
+    norm_num
 end PsV.Permute
